@@ -1,7 +1,10 @@
 package main
 
 import (
+	"bytes"
 	"crypto"
+	"crypto/ecdsa"
+	"crypto/elliptic"
 	"crypto/rand"
 	"crypto/rsa"
 	"crypto/tls"
@@ -19,6 +22,8 @@ import (
 
 	"github.com/Cloud-Foundations/golib/pkg/log/testlogger"
 	"github.com/go-jose/go-jose/v4"
+	"golang.org/x/crypto/openpgp"
+	"golang.org/x/crypto/openpgp/armor"
 	"golang.org/x/crypto/ssh"
 	"golang.org/x/time/rate"
 )
@@ -142,6 +147,133 @@ func vfSealDigest2(status int, state *RuntimeState) string {
 	return d + " in=" + in + " served=" + served
 }
 
+// ---- round 5: the contents of the two CA key files as a fixture family
+
+// vfC09Armor: what `gpg --symmetric --armor` writes (the format tryLoadAndVerifySigners accepts as "encrypted")
+func vfC09Armor(plaintext []byte, passphrase string) ([]byte, error) {
+	var out bytes.Buffer
+	aw, err := armor.Encode(&out, "PGP MESSAGE", nil)
+	if err != nil {
+		return nil, err
+	}
+	pw, err := openpgp.SymmetricallyEncrypt(aw, []byte(passphrase), nil, nil)
+	if err != nil {
+		return nil, err
+	}
+	if _, err := pw.Write(plaintext); err != nil {
+		return nil, err
+	}
+	if err := pw.Close(); err != nil {
+		return nil, err
+	}
+	if err := aw.Close(); err != nil {
+		return nil, err
+	}
+	return out.Bytes(), nil
+}
+
+var vfC09FileCache = map[string][]byte{}
+
+// vfC09KeyFile: the armored file for one slot ("main" / "ed") and one content letter:
+// g the repo's good test key for that slot · e / c / r an Ed25519 / ECDSA / RSA private key (PEM) ·
+// x a PEM block that is no private key · n no PEM at all · z empty · o the good key under another passphrase.
+// Everything but `o` is encrypted under "password".
+func vfC09KeyFile(slot, letter string, someCert []byte) ([]byte, bool) {
+	if b, ok := vfC09FileCache[slot+letter]; ok {
+		return b, true
+	}
+	good := encryptedTestSignerPrivateKey
+	if slot == "ed" {
+		good = encryptedTestEd25519PrivateKey
+	}
+	plainOf := func(armored string) []byte {
+		b, err := pgpDecryptFileData([]byte(armored), []byte("password"))
+		if err != nil {
+			return nil
+		}
+		return b
+	}
+	var plain []byte
+	pass := "password"
+	switch letter {
+	case "g":
+		vfC09FileCache[slot+letter] = []byte(good)
+		return []byte(good), true
+	case "e":
+		plain = plainOf(encryptedTestEd25519PrivateKey)
+	case "r":
+		plain = plainOf(encryptedTestSignerPrivateKey)
+	case "c":
+		k, err := ecdsa.GenerateKey(elliptic.P256(), rand.Reader)
+		if err != nil {
+			return nil, false
+		}
+		der, err := x509.MarshalECPrivateKey(k)
+		if err != nil {
+			return nil, false
+		}
+		plain = pem.EncodeToMemory(&pem.Block{Type: "EC PRIVATE KEY", Bytes: der})
+	case "x":
+		plain = pem.EncodeToMemory(&pem.Block{Type: "CERTIFICATE", Bytes: someCert})
+	case "n":
+		plain = []byte("this file holds no key\n")
+	case "z":
+		plain = []byte{}
+	case "o":
+		plain, pass = plainOf(good), "another passphrase"
+	default:
+		return nil, false
+	}
+	if plain == nil {
+		return nil, false
+	}
+	b, err := vfC09Armor(plain, pass)
+	if err != nil {
+		return nil, false
+	}
+	vfC09FileCache[slot+letter] = b
+	return b, true
+}
+
+// vfSealDigest3 = vfSealDigest2 + ` ca=<CA certificate over the signer key loaded><over the Ed25519 key>`
+// + ` obs=<readyz>,<a route that tests the seal first: 500|pass>` (all compared with the model) +
+// ` keys=<Signer: s the main file's key, ? another, - nil><Ed25519Signer: e|?|->` (for the judge)
+func vfSealDigest3(status int, state *RuntimeState) string {
+	d := vfSealDigest2(status, state)
+	state.Mutex.Lock()
+	ders := append([][]byte{}, state.caCertDer...)
+	signer, ed := state.Signer, state.Ed25519Signer
+	state.Mutex.Unlock()
+	caHas := func(k crypto.PublicKey) bool {
+		for _, der := range ders {
+			if c, err := x509.ParseCertificate(der); err == nil && c.IsCA {
+				if pk, ok := c.PublicKey.(interface{ Equal(crypto.PublicKey) bool }); ok && pk.Equal(k) {
+					return true
+				}
+			}
+		}
+		return false
+	}
+	letter := func(sg crypto.Signer, known crypto.PublicKey, l string) string {
+		if sg == nil {
+			return "-"
+		}
+		if pk, ok := sg.Public().(interface{ Equal(crypto.PublicKey) bool }); ok && pk.Equal(known) {
+			return l
+		}
+		return "?"
+	}
+	r1, _ := vfServe(state.readyzHandler, httptest.NewRequest("GET", readyzPath, nil))
+	creq, _ := createKeyBodyRequest("POST", "/certgen/username?type=x509", testUserPEMPublicKey, "")
+	r2, p2 := vfServe(state.certGenHandler, creq)
+	g := "pass"
+	if p2 == nil && r2.Code == 500 {
+		g = "500"
+	}
+	return fmt.Sprintf("%s ca=%s%s obs=%d,%s keys=%s%s", d, vfBool(caHas(vfC09SignerPub)), vfBool(caHas(vfC09EdPub)),
+		r1.Code, g, letter(signer, vfC09SignerPub, "s"), letter(ed, vfC09EdPub, "e"))
+}
+
 func vfInjectReq(kind string, chain []*x509.Certificate) (*http.Request, bool) {
 	form := neturl.Values{}
 	req := httptest.NewRequest("POST", secretInjectorPath, nil)
@@ -262,6 +394,45 @@ func TestVerifC09(t *testing.T) {
 				continue
 			}
 			vio.emit("%s", vfSealDigest2(rr.Code, st))
+		case "reset3": // reset3 <main file letter> <ed file letter|-> <preloaded keymaster_public_keys>
+			if len(f) != 4 {
+				vio.emit("bad-op")
+				continue
+			}
+			st = newSealed(false)
+			okf := true
+			st.SSHCARawFileContent, okf = vfC09KeyFile("main", f[1], shapes.kmCA.Raw)
+			if okf && f[2] != "-" {
+				st.Ed25519CAFileContent, okf = vfC09KeyFile("ed", f[2], shapes.kmCA.Raw)
+			}
+			if !okf {
+				st = nil
+				vio.emit("bad-op")
+				continue
+			}
+			for _, ch := range f[3] {
+				switch ch {
+				case 's':
+					st.KeymasterPublicKeys = append(st.KeymasterPublicKeys, vfC09SignerPub)
+				case 'e':
+					st.KeymasterPublicKeys = append(st.KeymasterPublicKeys, vfC09EdPub)
+				case 'f':
+					st.KeymasterPublicKeys = append(st.KeymasterPublicKeys, vfC09ForeignPub)
+				}
+			}
+			vio.emit("%s", vfSealDigest3(0, st))
+		case "inj3":
+			req, ok := vfInjectReq(f[1], chain)
+			if st == nil || !ok {
+				vio.emit("bad-op")
+				continue
+			}
+			rr, p := vfServe(st.secretInjectorHandler, req)
+			if p != nil {
+				vio.emit("panic")
+				continue
+			}
+			vio.emit("%s", vfSealDigest3(rr.Code, st))
 		case "inj":
 			req, ok := vfInjectReq(f[1], chain)
 			if st == nil || !ok {
